@@ -19,14 +19,14 @@ import json
 import os
 import random
 import shutil
+import re
 import struct
 from collections import deque
 from concurrent.futures import ThreadPoolExecutor
 
 from .. import vloop
 from ..common import Ctx, setup_repo_path
-from ..replay import bfs_tree, path_to
-from ..tlc import FrozenDict, MachineryError, parse_dot, parse_simulate_file, run_tlc, scratch_dir, SPECS
+from ..tlc import FrozenDict, MachineryError, parse_dot, parse_label, parse_simulate_file, run_tlc, scratch_dir, SPECS
 
 PID = "C15"
 UNIT = 1800.0            # seconds per clock unit of the model-checking configurations (Base = 2 units = MAX_ENTRY_AGE)
@@ -441,6 +441,58 @@ def signature_of(name, args, d):
     return "replay:%s%s:%s" % (name, extra, ",".join(sorted(d)))
 
 
+
+
+from ..tlc import _unescape  # noqa: E402
+
+
+class LazyEdges:
+    """edge list of a dumped graph whose action arguments are parsed only when an edge is actually replayed"""
+
+    def __init__(self):
+        self.src, self.dst, self.raw, self.parsed = [], [], [], []
+
+    def __len__(self):
+        return len(self.src)
+
+    def __getitem__(self, i):
+        if self.parsed[i] is None:
+            name, args = parse_label(_unescape(self.raw[i]))
+            self.parsed[i] = (self.src[i], name, args, self.dst[i])
+        return self.parsed[i]
+
+    def name(self, i):
+        return self.raw[i].split("(", 1)[0].strip()
+
+
+def parse_dot_lazy(path):
+    """harness.tlc.parse_dot with lazily parsed edge labels (a quick run replays a sample of the edges only)"""
+    from ..tlc import _RE_EDGE, _RE_NODE, Graph, _unescape, parse_state
+    g = Graph()
+    with open(path, encoding="utf-8") as f:
+        text = f.read()
+    for mt in _RE_NODE.finditer(text):
+        sid = int(mt.group(1))
+        if sid not in g.states:
+            g.states[sid] = parse_state(_unescape(mt.group(2)))
+            if mt.group(3):
+                g.init.append(sid)
+    g.edges = LazyEdges()
+    seen = set()
+    for mt in _RE_EDGE.finditer(text):
+        key = (mt.group(1), mt.group(2), mt.group(3))
+        if key in seen:
+            continue
+        seen.add(key)
+        g.edges.src.append(int(mt.group(1)))
+        g.edges.dst.append(int(mt.group(2)))
+        g.edges.raw.append(mt.group(3))
+        g.edges.parsed.append(None)
+    for i, s_ in enumerate(g.edges.src):
+        g.out.setdefault(s_, []).append(i)
+    return g
+
+
 def cover(g, seed, max_ops=None, max_len=300):
     """Edge cover by long walks: take an unvisited edge of the current state if there is one, otherwise move along
     the shortest path to the nearest state that still has one; start a new walk (fresh node) from the initial state when
@@ -453,11 +505,12 @@ def cover(g, seed, max_ops=None, max_len=300):
     remaining = sum(len(v) for v in unvisited.values())
     init = g.init[0]
     ops = 0
+    esrc, edst = (g.edges.src, g.edges.dst) if isinstance(g.edges, LazyEdges) else ([e[0] for e in g.edges], [e[3] for e in g.edges])
     succ = {}
     for s_ in g.states:
         first = {}
         for ei in g.out.get(s_, ()):
-            d = g.edges[ei][3]
+            d = edst[ei]
             if d != s_ and d not in first:
                 first[d] = ei
         succ[s_] = list(first.items())
@@ -471,7 +524,7 @@ def cover(g, seed, max_ops=None, max_len=300):
                 path = []
                 while seen[s] is not None:
                     path.append(seen[s])
-                    s = g.edges[seen[s]][0]
+                    s = esrc[seen[s]]
                 path.reverse()
                 return path
             for d, ei in succ[s]:
@@ -485,7 +538,7 @@ def cover(g, seed, max_ops=None, max_len=300):
             e = unvisited[cur].pop()
             remaining -= 1
             walk.append(e)
-            cur = g.edges[e][3]
+            cur = edst[e]
             continue
         path = nearest(cur) if len(walk) < max_len else None
         if path is None:
@@ -498,7 +551,7 @@ def cover(g, seed, max_ops=None, max_len=300):
             cur, walk = init, []
             continue
         walk.extend(path)
-        cur = g.edges[path[-1]][3]
+        cur = edst[path[-1]]
     if walk:
         yield init, walk
 
@@ -537,9 +590,22 @@ def check_coverage(r, cfgname, expect):
         raise MachineryError("vacuous model %s: actions never taken: %s" % (cfgname, missing))
 
 
-def shortest_steps(g, parent, ei):
-    init, walk = path_to(g, parent, g.edges[ei][0])
-    walk = walk + [ei]
+def shortest_steps(g, ei):
+    """the shortest behaviour from the initial state that ends with edge ei"""
+    src, dst = g.edges.src, g.edges.dst
+    parent = {g.init[0]: None}
+    dq = deque([g.init[0]])
+    while dq:
+        s = dq.popleft()
+        for e in g.out.get(s, ()):
+            if dst[e] not in parent:
+                parent[dst[e]] = e
+                dq.append(dst[e])
+    walk, s = [ei], src[ei]
+    while parent[s] is not None:
+        walk.append(parent[s])
+        s = src[parent[s]]
+    walk.reverse()
     return [(g.edges[e][1], g.edges[e][2], g.states[g.edges[e][0]], g.states[g.edges[e][3]]) for e in walk]
 
 
@@ -555,7 +621,6 @@ def report(ctx, cls, cfgname, steps, bad):
 def replay_graph(ctx, m, g, cfgname, cls, max_ops):
     tag = cfgname[len("DhtStore_"):-4]
     rp = Replayer(ctx, m, cls, tag)
-    _order, parent = bfs_tree(g)
     covered = set()
     nwalks = 0
     for _init, walk in cover(g, ctx.seed, max_ops):
@@ -571,7 +636,7 @@ def replay_graph(ctx, m, g, cfgname, cls, max_ops):
             ctx.sample({"cfg": cfgname, "actions": [label(n, a) for n, a, _b, _a in steps][:12]})
         if bad:
             # report the shortest behaviour that shows the same divergence, if it does
-            short = shortest_steps(g, parent, walk[bad[0]])
+            short = shortest_steps(g, walk[bad[0]])
             sbad = rp.run(short) if len(short) < bad[0] + 1 else None
             if sbad and sbad[0] == len(short) - 1:
                 report(ctx, cls, cfgname, short, sbad)
@@ -813,11 +878,13 @@ class Observer:
 
 
 class Scenario:
-    def __init__(self, m, seed, duration):
+    def __init__(self, m, seed, duration, light=False):
         from ipv8.dht.community import DHTCommunity
+        self.light = light
         from ipv8.dht.discovery import DHTDiscoveryCommunity
         from ..simnet import SimNet
         self.m, self.rng, self.duration, self.seed = m, random.Random("c15-scn-%d" % seed), duration, seed
+        random.seed("c15-global-%d" % seed)     # ipv8 draws cache numbers and bucket-refresh targets from the global generator
         self.loop = vloop_loop()
         self.loop._vt = T0
         self.net = SimNet(self.loop, auto=True)
@@ -845,6 +912,14 @@ class Scenario:
             ob = Observer(m, srv, self.keys, name)
             self.observers[id(srv.ov)] = ob
             self.by_addr[(srv.node.address[0], srv.node.address[1])] = ob
+        if light:
+            # quick tier: bucket refreshing (a crawl per minute and node) only on the observed nodes
+            watched = {id(ob.srv) for ob in self.observers.values()}
+            for srv in [self.evil] + self.nears + self.clients:
+                if id(srv) not in watched:
+                    srv.ov.cancel_pending_task("node_maintenance")
+            for srv in (self.V, self.nears[0]):
+                srv.ov.cancel_pending_task("store_peer")     # its half-minute self-registration crawl; thorough keeps it
         orig = self.net.deliver
 
         def deliver(dg):
@@ -1065,7 +1140,7 @@ class Scenario:
         joins = [(500, self.nears[3:6]), (1100, self.nears[6:7]), (1700, self.nears[7:8])]
         end = T0 + self.duration
         while self.loop.time() < end:
-            await asyncio.sleep(self.rng.choice([3, 7, 12, 20, 35]))
+            await asyncio.sleep(self.rng.choice([7, 12, 20, 35, 50] if self.light else [3, 7, 12, 20, 35]))
             if joins and self.loop.time() - T0 > joins[0][0]:
                 for late in joins.pop(0)[1]:
                     for s in everyone:
@@ -1076,7 +1151,7 @@ class Scenario:
             if self.rng.random() < 0.05:
                 self.poison()
             try:
-                if self.rng.random() < 0.45:
+                if self.rng.random() < (0.3 if self.light else 0.45):
                     await self.honest()
                 else:
                     await self.attack()
@@ -1117,7 +1192,7 @@ def tlc_traces(traces, tag, tmp, eq):
         json.dump([{"events": t["events"]} for t in traces], f)
     cfg = "DhtStoreTrace.cfg" if eq else cfg_variant(tmp, "DhtStoreTrace.cfg", EqReplaces="FALSE")
     try:
-        return tlc("DhtStoreTrace.tla", cfg, env={"TRACE_FILE": path}, coverage=False, workers=4)
+        return tlc("DhtStoreTrace.tla", cfg, env={"TRACE_FILE": path}, coverage=False, workers=2)
     finally:
         os.unlink(path)
 
@@ -1215,8 +1290,8 @@ GRAPHS = (("DhtStore_tokens.cfg", "disc", ("FindRequest", "RotateSecrets", "Stor
           ("DhtStore_versions.cfg", "dht", ("FindRequest", "StoreRequest", "Clean", "Tick")),
           ("DhtStore_expiry.cfg", "dht", ("FindRequest", "StoreRequest", "LocalStore", "Clean", "Tick", "Discover")),
           ("DhtStore_limits.cfg", "dht", ("FindRequest", "StoreRequest", "Clean", "Tick")))
-BUDGET = {"quick": {"DhtStore_tokens.cfg": 7000, "DhtStore_versions.cfg": 5000, "DhtStore_expiry.cfg": 7000,
-                    "DhtStore_limits.cfg": 4000}}
+BUDGET = {"quick": {"DhtStore_tokens.cfg": 6000, "DhtStore_versions.cfg": 4000, "DhtStore_expiry.cfg": 6000,
+                    "DhtStore_limits.cfg": 3000}}
 
 
 def run(tier, seed, replay=None):
@@ -1255,6 +1330,13 @@ def _run(ctx, tier, seed, replay):
         "a malformed value that makes unserialize_value raise (truncated, unknown key format) aborts the request/lookup; "
         "robustness against such input is property C03's subject and is not explored here",
         "one storage key per replayed node (per-key lists are independent); two keys in the recorded runs"]
+    phases, t_phase = {}, [vloop._REAL_TIME()]
+
+    def phase(name):
+        now = vloop._REAL_TIME()
+        phases[name] = round(phases.get(name, 0) + now - t_phase[0], 2)
+        t_phase[0] = now
+        ctx.note("wall_by_phase_s", phases)
     m = Material(seed)
     ctx.eq = calibrate_equal_version()
     ctx.note("calibration", {"equal_version_replaces": ctx.eq})
@@ -1268,7 +1350,7 @@ def _run(ctx, tier, seed, replay):
             if over:
                 cfg = cfg_variant(tmp, cfgname, **over)
             dot = os.path.join(tmp, os.path.basename(cfg) + ".dot") if dump else None
-            return tlc("DhtStore.tla", cfg, dump=dot, workers=4, coverage=dump), dot
+            return tlc("DhtStore.tla", cfg, dump=dot, workers=2, coverage=dump), dot
 
         if replay:
             with open(replay, encoding="utf-8") as f:
@@ -1276,8 +1358,9 @@ def _run(ctx, tier, seed, replay):
             rec = whole["replay"]
             if rec and rec.get("scenario"):
                 m = Material(whole["seed"])
-                sc = Scenario(m, rec["scenario"]["seed"], rec["scenario"]["duration"])
+                sc = Scenario(m, rec["scenario"]["seed"], rec["scenario"]["duration"], rec["scenario"].get("light", False))
                 traces = sc.run()
+                ctx.sample({"replayed_network_run": rec["scenario"]})
                 judge_traces(ctx, traces, "trace", tlc_traces(traces, "trace", tmp, ctx.eq), rec["scenario"])
                 judge_lookups(ctx, sc.lookups, "lookups", tlc_lookups(sc.lookups, "lookups", tmp), rec["scenario"])
                 return finish(ctx)
@@ -1285,6 +1368,7 @@ def _run(ctx, tier, seed, replay):
                 blobs = [m.blob(FrozenDict(v)) for v in rec["seen"]]
                 st = {"seen": tuple(FrozenDict(v) for v in rec["seen"]), "top": {k: (v[0], frozenset(v[1])) for k, v in rec["top"].items()},
                       "unsigned": frozenset(rec["unsigned"])}
+                ctx.sample({"replayed_lookup": rec["seen"]})
                 problems = lookup_problems(m, st, m.tools["K1"].post_process_values(blobs))
                 if problems:
                     ctx.violation("lookup:" + problems[0].split(":")[0], problems[0], rec)
@@ -1297,6 +1381,8 @@ def _run(ctx, tier, seed, replay):
             steps = follow(g, rec["steps"])
             cls = classes["disc" if rec["overlay"] == "DHTDiscoveryCommunity" else "dht"]
             bad = Replayer(ctx, m, cls, "replay").run(steps)
+            ctx.sample({"replayed_behaviour": [label(n, a) for n, a, _b, _a in steps]})
+            ctx.add_tlc("replay", r)
             if bad:
                 report(ctx, cls, rec["cfg"], steps, bad)
             ctx.evaluated(len(steps))
@@ -1310,7 +1396,7 @@ def _run(ctx, tier, seed, replay):
 
         def lookup_model(cfgname):
             dot = os.path.join(tmp, cfgname + ".dot")
-            return tlc("DhtLookup.tla", cfgname, dump=dot, workers=4, coverage=False), dot
+            return tlc("DhtLookup.tla", cfgname, dump=dot, workers=2, coverage=False), dot
         lk_jobs = {c: pool.submit(lookup_model, c) for c in lk_cfgs}
         big_job = None if quick else pool.submit(tlc, "DhtStore.tla", "DhtStore_bigmc.cfg", workers=6, coverage=False,
                                                  timeout=3000)
@@ -1318,7 +1404,7 @@ def _run(ctx, tier, seed, replay):
         # ---- T: record while TLC computes
         scen = []
         for i in range(1 if quick else 3):
-            sc = Scenario(m, seed * 10 + i, 3800 if quick else 11200)
+            sc = Scenario(m, seed * 10 + i, 3800 if quick else 11200, light=quick)
             traces = sc.run()
             scen.append((sc, traces))
             ctx.note("network_run_%d" % i, {"virtual_seconds": sc.duration, "datagrams": len(sc.net.wire),
@@ -1327,6 +1413,7 @@ def _run(ctx, tier, seed, replay):
             stores = sum(ob.stats.get("store", 0) for ob in sc.observers.values())
             if stores < 20 or not sc.lookups or not any(ob.stats.get("clean") for ob in sc.observers.values()):
                 raise MachineryError("recorded run is vacuous: %d stores, %d lookups" % (stores, len(sc.lookups)))
+        phase("record_network_runs")
         t_jobs = [(tr, "trace%d" % i, pool.submit(tlc_traces, tr, "trace%d" % i, tmp, ctx.eq)) for i, (_sc, tr) in enumerate(scen)]
         l_jobs = [(sc.lookups, "lookups%d" % i, pool.submit(tlc_lookups, sc.lookups, "lookups%d" % i, tmp))
                   for i, (sc, _tr) in enumerate(scen)]
@@ -1348,25 +1435,26 @@ def _run(ctx, tier, seed, replay):
                 raise MachineryError("DhtStore %s: TLC reports %s on the specification itself" % (cfgname, r.violated))
             check_coverage(r, cfgname, acts)
             ctx.add_tlc(cfgname[len("DhtStore_"):-4], r)
-            g = parse_dot(dot)
+            phase("wait_for_tlc")
+            g = parse_dot_lazy(dot)
             os.unlink(dot)
             graphs[cfgname] = g
-            if not ctx.violations or len(ctx.violations) < 3:
+            phase("parse_graphs")
+            if len(ctx.violations) < 3:
                 replay_graph(ctx, m, g, cfgname, classes[kind], BUDGET.get(tier, {}).get(cfgname))
+            phase("replay_graphs")
         ctx.cov["exhaustive"] = not quick
 
         # ---- replay negative controls: the comparison must notice a node that does something else
         g = graphs["DhtStore_versions.cfg"]
-        _o, parent = bfs_tree(g)
-        e1 = next(i for i, (s_, n, a, d) in enumerate(g.edges) if n == "StoreRequest" and s_ != d)
-        steps = shortest_steps(g, parent, e1)
+        e1 = next(i for i in range(len(g.edges)) if g.edges.src[i] != g.edges.dst[i] and g.edges.name(i) == "StoreRequest")
+        steps = shortest_steps(g, e1)
         keep = list(ctx.violations)
         bad = Replayer(ctx, m, DHTCommunity, "ctl").run(steps, sabotage_at=len(steps) - 1, sabotage="lose-request")
         ctx.control("replay in which the node never receives a store request that the specification processes is flagged", bool(bad))
         g = graphs["DhtStore_expiry.cfg"]
-        _o, parent = bfs_tree(g)
-        e2 = next(i for i, (s_, n, a, d) in enumerate(g.edges) if n == "Clean" and s_ != d)
-        steps = shortest_steps(g, parent, e2)
+        e2 = next(i for i in range(len(g.edges)) if g.edges.src[i] != g.edges.dst[i] and g.edges.name(i) == "Clean")
+        steps = shortest_steps(g, e2)
         bad = Replayer(ctx, m, DHTCommunity, "ctl").run(steps, sabotage_at=len(steps) - 1, sabotage="skip-clean")
         ctx.control("replay in which maintenance is skipped where the specification removes expired values is flagged", bool(bad))
         ctx.violations[:] = keep
@@ -1383,27 +1471,31 @@ def _run(ctx, tier, seed, replay):
         if not quick and len(ctx.violations) < 3:
             replay_simulated(ctx, m, tmp, DHTDiscoveryCommunity, 300, 400, ctx.eq)
 
+        phase("controls_and_simulated")
         # ---- E
         for cfgname, job in lk_jobs.items():
             r, dot = job.result()
+            phase("wait_for_tlc")
             if not r.ok:
                 raise MachineryError("DhtLookup %s: TLC reports %s on the reference" % (cfgname, r.violated))
             ctx.add_tlc(cfgname[:-4], r)
             g = parse_dot(dot, keep_vars=("seen", "top", "unsigned"))
             os.unlink(dot)
             check_lookup(ctx, m, g, cfgname[len("DhtLookup_"):-4])
+            phase("lookup_enumeration")
 
         # ---- T verdicts
         for (sc, _t), (tr, tag, j) in zip(scen, t_jobs):
-            judge_traces(ctx, tr, tag, j.result(), {"seed": sc.seed, "duration": sc.duration})
+            judge_traces(ctx, tr, tag, j.result(), {"seed": sc.seed, "duration": sc.duration, "light": sc.light})
         for (sc, _t), (lks, tag, j) in zip(scen, l_jobs):
-            judge_lookups(ctx, lks, tag, j.result(), {"seed": sc.seed, "duration": sc.duration})
+            judge_lookups(ctx, lks, tag, j.result(), {"seed": sc.seed, "duration": sc.duration, "light": sc.light})
         for name, j in c_jobs:
             ctx.control(name, not j.result().ok)
         if scen:
             tr = scen[0][1][0]
             ctx.sample({"recorded_history": {"node": tr["node"], "events": [
                 {k: v for k, v in e.items() if k not in ("st", "problems")} for e in tr["events"] if e["ev"] != "find"][:4]}})
+        phase("trace_verdicts")
         if big_job is not None:
             r = big_job.result()
             if not r.ok:
